@@ -25,8 +25,32 @@ VERIF = os.path.dirname(os.path.dirname(os.path.abspath(__file__)))
 sys.path.insert(0, os.path.join(VERIF, "lib"))
 import registry  # noqa: E402
 
-TARGET = os.path.join(VERIF, ".target")
+# VERIF_REPO (default /repo): the rust-libp2p tree to check.  Registered checks always use
+# /repo; a different tree (a scratch worktree with a seeded change) gets its own generated
+# copy of the harness crates (path dependencies rewritten), target dir, evidence and
+# replay dirs under .target/alt/<name>/ so that it never disturbs checks of /repo.
+REPO = os.path.abspath(os.environ.get("VERIF_REPO", "/repo"))
+ALT = None if REPO == "/repo" else os.path.join(VERIF, ".target", "alt", REPO.strip("/").replace("/", "_"))
+TARGET = os.path.join(ALT, "target") if ALT else os.path.join(VERIF, ".target")
 LOGS = os.path.join(TARGET, "logs")
+HARNESS = os.path.join(ALT, "harness") if ALT else os.path.join(VERIF, "harness")
+EVIDENCE = os.path.join(ALT, "evidence") if ALT else os.path.join(VERIF, "evidence")
+REPLAYS = os.path.join(ALT, "replays") if ALT else os.path.join(VERIF, "replays")
+
+
+def materialize(group):
+    """For VERIF_REPO != /repo: copy harness/<group> with /repo/ rewritten in Cargo.toml."""
+    if not ALT:
+        return
+    src = os.path.join(VERIF, "harness", group)
+    dst = os.path.join(HARNESS, group)
+    os.makedirs(dst, exist_ok=True)
+    shutil.rmtree(os.path.join(dst, "src"), ignore_errors=True)
+    shutil.copytree(os.path.join(src, "src"), os.path.join(dst, "src"))
+    man = open(os.path.join(src, "Cargo.toml")).read().replace('"/repo/', '"%s/' % REPO)
+    open(os.path.join(dst, "Cargo.toml"), "w").write(man)
+    if not os.path.exists(os.path.join(dst, "Cargo.lock")):
+        shutil.copy(os.path.join(src, "Cargo.lock"), os.path.join(dst, "Cargo.lock"))
 RUSTFLAGS = '--cfg libp2p_verif --cfg sha2_backend="soft"'
 
 TIER_CAPS = {
@@ -48,9 +72,10 @@ def sync_lock(group):
     """The harness crate's committed Cargo.lock was generated from /repo/Cargo.lock (same
     dependency versions as the repository's own build) plus the harness package and the
     shim entries; if it is missing it is re-seeded from /repo/Cargo.lock."""
-    dst = os.path.join(VERIF, "harness", group, "Cargo.lock")
+    materialize(group)
+    dst = os.path.join(HARNESS, group, "Cargo.lock")
     if not os.path.exists(dst):
-        shutil.copy("/repo/Cargo.lock", dst)
+        shutil.copy(os.path.join(REPO, "Cargo.lock"), dst)
 
 
 def harness_names(prop, tier):
@@ -94,7 +119,7 @@ def run_harness(group, feats, name, caps, logdir, extra=()):
     t0 = time.time()
     status = None
     with open(log, "w") as out:
-        p = subprocess.Popen(cmd, cwd=os.path.join(VERIF, "harness", group), env=env(),
+        p = subprocess.Popen(cmd, cwd=os.path.join(HARNESS, group), env=env(),
                              stdout=out, stderr=subprocess.STDOUT,
                              preexec_fn=limit(caps["mem_gib"]))
         try:
@@ -209,7 +234,7 @@ def replay(prop, group, feats, res, caps, logdir):
        as a unit test; 2. run that test natively (real tracing, dev + release profile)
        in replay/<group>; the failure must reproduce (the harness's assert! panics)."""
     import replay as rp
-    return rp.replay_harness(prop, group, feats, res, caps, logdir, env(), cargo_kani_base)
+    return rp.replay_harness(prop, group, feats, res, caps, logdir, env(), cargo_kani_base, HARNESS, TARGET, REPLAYS)
 
 
 def main(argv):
@@ -226,7 +251,7 @@ def main(argv):
 
     if a.replay:
         import replay as rp
-        return rp.rerun(a.replay, env())
+        return rp.rerun(a.replay, env(), HARNESS, TARGET)
     prop = a.prop
     if prop not in registry.PROPS:
         print("unknown or unclaimed property", prop)
@@ -260,7 +285,7 @@ def main(argv):
     cg_cmd = cargo_kani_base(group, feats) + ["--only-codegen"]
     cg_log = os.path.join(logdir, "_codegen.log")
     with open(cg_log, "w") as out:
-        rc = subprocess.call(cg_cmd, cwd=os.path.join(VERIF, "harness", group), env=env(),
+        rc = subprocess.call(cg_cmd, cwd=os.path.join(HARNESS, group), env=env(),
                              stdout=out, stderr=subprocess.STDOUT)
     codegen_s = round(time.time() - t0, 1)
     results = []
@@ -405,8 +430,8 @@ def write_evidence(prop, spec, tier, seed, results, wall, codegen_s, nviol, know
         wall_s=round(wall, 1),
         violations=nviol,
     )
-    os.makedirs(os.path.join(VERIF, "evidence"), exist_ok=True)
-    with open(os.path.join(VERIF, "evidence", prop + ".json"), "w") as f:
+    os.makedirs(EVIDENCE, exist_ok=True)
+    with open(os.path.join(EVIDENCE, prop + ".json"), "w") as f:
         json.dump(ev, f, indent=1)
 
 
